@@ -26,7 +26,20 @@ identifier in use, rm of a missing identifier, illegal edits of connected lines 
 fields, invalid tag names), at level 3 a new tag with a value that is refused for the datatype its class implies
 (string with tab / newline / non-printable character, empty string, empty list, boolean; 70% followed by a legal set
 of the same tag to a value of another class), a header line with the VN tag of the history's version that
-contradicts an earlier header line in another tag - interleaved with successful calls.
+contradicts an earlier header line in another tag; (GFA2, level >= 1) an E line that takes the place of a placeholder
+- its identifier is so far only mentioned by U/O lines - and is refused when it is connected, because the begin of one of
+its intervals carries the $ mark and the end does not (weight 2 of 46; the U/O line that mentions the identifier is
+added first when there is none): the placeholder must still be a line of the Gfa, listed by the groups as before;
+(GFA2) line.set("external", x) on a connected F line with x no oriented identifier (no orientation, blank, empty, '*',
+an integer, a list; weight 2 of 46; an F line is added first when there is none; 30%: after a legal assignment of
+`external` to the same line) - `external` is the key under which the Gfa keeps a fragment, so a refused value must be
+refused before the line is taken out of the collections - interleaved with successful calls.
+The same call with x = None (10% of these calls at levels >= 1), and at level 0 with x in (None, 5, ""), cannot end with
+the fragment kept under x; what is reported for such a call has the prefix "fragment-key-unvalidated-" before the
+signatures above (on the unchanged tree: the line is unregistered, then registering it again raises - the fragment is no
+longer a line of the Gfa while its segment still lists it).  (_hist.gen_case draws the failing calls of a level 0 history
+from its default table, which has none of the optional kinds: the level 0 variant is written down in _hist and covered by
+the prefix, but no history generated here contains it; x = None at levels 1-3 is what is generated.)
 
 Family "unknown version" (25% of the histories, Gfa() without version): lines may sit in the queue, which has
 no public accessor, so the observation is (str(g), version, names) only; a queued line that is replayed by a
@@ -57,8 +70,13 @@ unknown = #22 #23, add-S-* with the version unknown = #23 (queued line fails whe
 rm/disconnect/rmline-KeyError = echo of #20 (two lines under one ID), foreign-exception = #4 #7 #10 #11;
 add-L/E/G-NotUniqueError with an explicit version = a line that mentions a non-segment identifier as a segment
 is rejected half-way (rejected line stays in the segment's collections; not in DESIGN 7).
+fragment-key-unvalidated-foreign-exception / -changed-by-failed-setfield-AttributeError (also on /repo HEAD): fragment.set(
+"external", None) at levels 1-3 unregisters the fragment, drops the field and raises the builtin AttributeError when the
+line is registered again - the F line is gone from the Gfa, its segment still lists it, rm(fragment) raises as well.
 
 NOT CHECKED:
+  * an E line with inconsistent positions over a placeholder is generated at levels >= 1 only, with the $ mark misplaced
+    (begin > end is refused when the line is built at levels >= 1; at level 0 no malformed line is generated).
   * the continuation without a refused call is run for one refused call per history only, and compares how the calls
     end and the final observation, not the observation after every call.
   * identity of line objects (a failed call that swaps a line for an equal copy is not noticed).
@@ -77,7 +95,10 @@ ID = "C08"
 RULE = ("random histories (4-25 calls quick, up to 60 thorough) with 40% failing calls of every listed cause, interleaved "
         "with successful additions/removals/renames/tag edits, GFA1 and GFA2, validation levels 0-3, 25% with the "
         "version unknown (6%: starting with header lines without VN, optional queued lines and a refused header line "
-        "that names a version); refused set/delete of a field also leaves tag names and datatype of the field; one "
+        "that names a version); failing calls include (GFA2) an E line with a misplaced $ mark that defines an identifier "
+        "only U/O lines mention (refused when connected: the placeholder stays) and line.set('external', x) on a connected F line with x no oriented "
+        "identifier (the fragment stays under its key; x None reported as fragment-key-unvalidated-*); "
+        "refused set/delete of a field also leaves tag names and datatype of the field; one "
         "refused call per history is left out of a second run, which must end the same; 7% of the histories also rename a "
         "stored line to / add a line under / mention before its definition an identifier of 4300, 4301, 4302 or 4400 decimal "
         "digits (legal names at the limit of int(): calls that are expected to succeed). Non-trivial: at least one call raised on a Gfa holding at least two lines (decided by the "
@@ -87,7 +108,8 @@ PROF = H.profile(p_fail=0.40, close=0.3,
                  fails={"dup-same": 3, "dup-other": 4, "dup-link": 1, "version": 2, "malformed": 3, "header": 3,
                         "grouptag": 3, "rename-existing": 2, "rm-missing": 1, "illegal-edit": 3, "empty-line": 0.3,
                         "mention-nonsegment": 2, "path-nonsegment": 2, "placeholder-def-nonsegment": 2, "header-dt": 3.5,
-                        "rename-invalid": 1, "path-short-overlaps": 1.5, "tag-value": 4, "header-vn-conflict": 1},
+                        "rename-invalid": 1, "path-short-overlaps": 1.5, "tag-value": 4, "header-vn-conflict": 1,
+                        "placeholder-def-bad-positions": 2, "fragment-external": 2},
                  header_first=0.06)
 CASE_TIMEOUT = 60
 
@@ -266,6 +288,15 @@ def field_obs(line, step):
     return o
 
 
+KEY_PREFIX = "fragment-key-unvalidated-"
+
+
+def unvalidated_key(case, step):
+    """line.set("external", x) with x None, or at validation level 0 (generator label fail:fragment-external:unvalidated):
+    what such a call reports gets a signature of its own"""
+    return step[0] == "setfield" and step[2] == "external" and (step[3] is None or case.get("vlevel", 1) == 0)
+
+
 def refused_on_its_own(case, headers, text):
     """is the header line `text` also refused by a Gfa (same validation level, version unknown) that holds nothing but
     the header lines accepted so far?  Then no queued line and no other line has a part in the refusal."""
@@ -319,12 +350,14 @@ def oracle(case):
         if r[0] in ("gerr", "foreign"):
             refused.append(k)
             F = []
+            # the storage key of a fragment set to None, or to anything that cannot be a key at level 0 (see the module text)
+            pre = KEY_PREFIX if unvalidated_key(case, step) else ""
             if r[0] == "foreign":
-                F.append("foreign-exception: %s raises %s [step %d %r]" % (H.step_kind(step), r[1], k, step))
+                F.append("%sforeign-exception: %s raises %s [step %d %r]" % (pre, H.step_kind(step), r[1], k, step))
             if json.dumps(after, sort_keys=True) != json.dumps(before, sort_keys=True):
                 # the version was still unknown when the call was made: the (open) finding unknown-version-commit ...
                 unk = "[version-unknown]" if before.get("version") is None else ""
-                sig = "changed-by-failed-%s-%s%s" % (H.step_kind(step), r[1], unk)
+                sig = "%schanged-by-failed-%s-%s%s" % (pre, H.step_kind(step), r[1], unk)
                 if unk and step[0] == "add" and step[1].startswith("H") and refused_on_its_own(case, headers, step[1]):
                     # ... unless the line is a header line that is refused for what it says itself
                     sig = "changed-by-refused-header-%s%s" % (r[1], unk)
@@ -332,7 +365,7 @@ def oracle(case):
             elif fb is not None:
                 fa = field_obs(line, step)
                 if fa != fb:
-                    F.append("field-changed-by-failed-%s-%s: %s [step %d %r]" % (H.step_kind(step), r[1], _diff(fb, fa), k, step))
+                    F.append("%sfield-changed-by-failed-%s-%s: %s [step %d %r]" % (pre, H.step_kind(step), r[1], _diff(fb, fa), k, step))
             if F:
                 return [_short(x) for x in F]
         elif not full and step[0] == "add" and step[1].startswith("H"):
